@@ -71,7 +71,9 @@ def draw_game(st, tier, like=None):
     if like is not None:
         r, (a_out, b_out), (a_in, b_in), cplx, fam = like["referee_dim"], like["answers"], like["questions"], like["complex"], like["family"]
     rng = st.nprng()
-    kind = st.weighted([("random_psd", 3), ("indicator", 3), ("projector", 3), ("scaled", 2)])
+    kind = st.weighted([("random_psd", 3), ("indicator", 3), ("projector", 3), ("scaled", 2), ("pauli_bases", 3 if r == 2 else 0)])
+    if kind == "pauli_bases":
+        cplx = True
     dtype = complex if cplx else float
     pred = np.zeros((r, r, a_out, b_out, a_in, b_in), dtype=dtype)
     if kind == "indicator":
@@ -81,6 +83,21 @@ def draw_game(st, tier, like=None):
         for x in range(a_in):
             for y in range(b_in):
                 pred[:, :, f[x], g[y], x, y] = np.eye(r) if st.draw(2) == 0 else rand_psd(rng, r, cplx)
+    elif kind == "pauli_bases":
+        # monogamy-of-entanglement style games in the bases of sigma_x, sigma_y, sigma_z: the referee measures in a
+        # basis chosen by the questions and the players win iff both announce the referee's outcome; sigma_y makes
+        # the operators genuinely complex (purely imaginary off-diagonal entries)
+        vecs = {"z": [np.array([1, 0]), np.array([0, 1])], "x": [np.array([1, 1]) / np.sqrt(2), np.array([1, -1]) / np.sqrt(2)],
+                "y": [np.array([1, 1j]) / np.sqrt(2), np.array([1, -1j]) / np.sqrt(2)]}
+        names = ["y", "z", "x"]
+        for x in range(a_in):
+            for y in range(b_in):
+                basis = vecs[names[(x + 2 * y + int(rng.integers(0, 3))) % 3]]
+                for a in range(a_out):
+                    for b in range(b_out):
+                        if a == b or a_out == 1 or b_out == 1:
+                            v = basis[(a if a_out > 1 else b) % 2]
+                            pred[:, :, a, b, x, y] = np.outer(v, v.conj())
     else:
         for a, b, x, y in itertools.product(range(a_out), range(b_out), range(a_in), range(b_in)):
             if kind == "projector":
@@ -193,6 +210,8 @@ def run(cs, tier, run_index):
                 op["iters"] = 1 + (st.draw(4) == 3)
         ops.append(op)
 
+    if st.draw(2):
+        ops.insert(st.draw(len(ops) + 1), {"op": "unentangled"})  # cheap on both sides: compared with the enumeration model
     pristine, vals, names, ents = {}, {}, [], set()
     for k, op in enumerate(ops):
         key = json.dumps(op, sort_keys=True)
